@@ -12,7 +12,7 @@ PROP = "C09"
 LEVEL = "exploration"
 TIMEOUT_S = 600.0
 RULE = ("one run = seeded configuration (all pre_dispatch forms, fixed and auto batch sizes, n_jobs 2..4, inputs of "
-        "0..400 items, optional task failure / generator close) x seeded schedule; monitors at every pull event: "
+        "0..400 items, optional task failure / generator close / refused second call on the busy object after a failure) x seeded schedule; monitors at every pull event: "
         "re-entrancy, items taken minus tasks completed <= (P + n_jobs) * largest batch, batches in flight <= P, "
         "'all' consumed up front, no pull after the call is over; distinct = digest of (thread role, event kind) "
         "sequence; non-trivial = a completion callback ran while the caller was still dispatching or a pre-emption "
@@ -36,6 +36,11 @@ def gen_case(rng):
     mode = rng.random()
     if mode < 0.25 and n:
         call["fail"] = {str(rng.randrange(n)): ["Boom", "t0"]}
+        if case["return_as"] != "list" and rng.random() < 0.5:
+            # the consumer pauses, tries to start a second call on the busy object (refused), pauses again, goes on
+            f = int(next(iter(call["fail"])))
+            call["overlap_after"] = rng.randint(0, min(f, 6))
+            call["overlap_sleep"] = [rng.choice([0.0, 0.01, 0.5, 5.0]), rng.choice([0.0, 0.01, 0.5, 5.0])]
     elif mode < 0.6 and case["return_as"] != "list":
         call["close_after"] = rng.randint(0, min(n, 12))
         call["close_other"] = rng.random() < 0.5          # the generator is closed by another thread than the caller's
@@ -46,6 +51,8 @@ def gen_case(rng):
     if rng.random() < 0.2:
         m = rng.randint(0, 8)
         case["calls"].append({"n": m, "dur": [0.0] * m})
+    if "overlap_after" in call:
+        case["calls"].append({"n": 3, "dur": [0.0] * 3, "phantom": True})
     case["strategy"] = ds.draw_strategy(rng)
     case["sched_seed"] = rng.randrange(1 << 31)
     case["max_steps"] = 600000
@@ -60,6 +67,22 @@ def plan(tier, seed):
 def consumer(w, s, p, c, gen, rec):
     call = w.case["calls"][c]
     k = call.get("close_after")
+    if call.get("overlap_after") is not None:
+        for _ in range(call["overlap_after"]):
+            rec["values"].append(next(gen))
+        s.sleep(call["overlap_sleep"][0])
+        ph = max(i for i, c_ in enumerate(w.case["calls"]) if c_.get("phantom"))
+        try:
+            from joblib import delayed
+            out2 = p(delayed(pc.task)(ph, i) for i in range(w.case["calls"][ph]["n"]))
+            rec["overlap"] = ("accepted", list(out2))
+        except RuntimeError as e:
+            rec["overlap"] = ("RuntimeError", str(e)[:60])
+        except BaseException as e:  # noqa
+            rec["overlap"] = ("other", repr(e)[:200])
+        w.ev("overlap", rec["overlap"][0])
+        w.probes["second_call_attempt_on_busy_object"] += 1
+        s.sleep(call["overlap_sleep"][1])
     if k is None:
         for v in gen:
             rec["values"].append(v)
@@ -122,6 +145,8 @@ def oracle(w, s):
     nj = pc.eff_n_jobs(case)
     P = pc.resolve_pre_dispatch(case["pre_dispatch"], nj)
     for c, call in enumerate(case["calls"]):
+        if call.get("phantom"):
+            continue
         rec = w.calls[c]
         faulty = bool(call.get("fail")) or "close_after" in call
         if P is None:
